@@ -1,8 +1,8 @@
 #!/usr/bin/env python3
-"""Self-test of the round-7 translators (`containers` -> C12Gen, `reasoningN` -> C02Gen, `wiring` -> C13Gen, `ringslots` -> C05Gen, `executor` -> C06Gen, `spinwait` -> C13WaitGen) on edited *copies* of the
+"""Self-test of the round-7 translators (`containers` -> C12Gen, `reasoningN` -> C02Gen, `wiring` -> C13Gen, `ringslots` -> C05Gen, `executor` -> C06Gen, `spinwait` -> C13WaitGen, `spseq` -> C14Gen) on edited *copies* of the
 sources — never touches /repo or /verif/lean:
 
-    python3 tools/test_rs2lean_round7.py [--repo /repo] [--only containers|reasoningN|wiring|ringslots|executor|spinwait]
+    python3 tools/test_rs2lean_round7.py [--repo /repo] [--only containers|reasoningN|wiring|ringslots|executor|spinwait|spseq]
 
 A scratch copy of the source tree (git worktree-free: the files are copied) and of the Lean project (with its build output, so that
 only the touched modules are rebuilt) is made under a temporary directory; for every edit the translator is run on the copy and the
@@ -27,6 +27,7 @@ EXE = 'dcl_data_structures/src/ring_buffer/executor/thread_pool_executor.rs'
 SPW = 'dcl_data_structures/src/ring_buffer/wait_strategy/spinlock_wait_strategy.rs'
 CSQ = 'dcl_data_structures/src/ring_buffer/utils/cursor_sequence.rs'
 BLK = 'dcl_data_structures/src/ring_buffer/wait_strategy/blocking_wait_strategy.rs'
+SPS = 'dcl_data_structures/src/ring_buffer/producer/single_producer.rs'
 PUSH_LOOP = "        let mut all: Vec<&T> = Vec::new();\n        for item in self {\n            all.push(&item)\n        }\n        all\n"
 DEQ_TOVEC = ("        let mut v = Vec::with_capacity(self.len());\n        let mut deque = self.clone(); // clone to avoid mutating the original\n\n"
              "        for item in deque.make_contiguous().iter() {\n            v.push(item.clone());\n        }\n\n        v\n")
@@ -145,6 +146,17 @@ EDITS = {
          "        let _guard = self.guard.lock().unwrap();\n        self.cvar.notify_all();\n        drop(_guard);",
          "        self.cvar.notify_all();"),
         ('BREAK', 'blocking: notify_one (refused)', BLK, "self.cvar.notify_all();", "self.cvar.notify_one();"),
+    ]),
+    'spseq': ('DcVerif.Props.C14Gen', [
+        ('QUIET', 'loop/break for while, capacity in a local', SPS,
+         "        while min_sequence + (self.buffer_size as Sequence) < end {\n            min_sequence =\n                get_min_cursor_sequence::<_, AtomicSequenceOrdered>(&self.gating_sequences);\n        }",
+         "        let capacity = self.buffer_size as Sequence;\n        loop {\n            if min_sequence + capacity >= end {\n                break;\n            }\n            min_sequence =\n                get_min_cursor_sequence::<_, AtomicSequenceOrdered>(&self.gating_sequences);\n        }"),
+        ('BREAK', 'wrap check against the start of the range', SPS, "(self.buffer_size as Sequence) < end {", "(self.buffer_size as Sequence) < start {"),
+        ('BREAK', 'range one too long', SPS, "(next, next + (count - 1) as Sequence)", "(next, next + count as Sequence)"),
+        ('BREAK', 'next_write not advanced past the end', SPS, "self.next_write_sequence.set(end + 1);", "self.next_write_sequence.set(end);"),
+        ('BREAK', 'publish stores lo', SPS, "    fn publish(&self, _: Sequence, hi: Sequence) {\n        self.cursor.set(hi);", "    fn publish(&self, lo: Sequence, _: Sequence) {\n        self.cursor.set(lo);"),
+        ('BREAK', 'drain waits for one less', SPS, ".take().saturating_sub(1);", ".take().saturating_sub(2);"),
+        ('BREAK', 'signal before the cursor store (refused)', SPS, "        self.cursor.set(hi);\n        self.wait_strategy.signal();", "        self.wait_strategy.signal();\n        self.cursor.set(hi);"),
     ]),
 }
 
